@@ -26,6 +26,7 @@ func C10(p *engine.Prog, r *engine.Report) {
 	c07R5(p, r, "C10-R4")
 	c10R5(p, r)
 	c10R6(p, r)
+	c10R7(p, r)
 }
 
 func c10R1(p *engine.Prog, r *engine.Report, consts map[int64]string, nob map[int64]bool) {
@@ -649,5 +650,122 @@ func c10R6(p *engine.Prog, r *engine.Report) {
 	r.Floor("C10-R6", 2, "ForCheck, Readonly, ForCheckWithOverwrite, Initialize")
 	if n == 0 {
 		r.Und("C10-R6", "NewValidatorsCache", "", "no constructor call found in core/appstate")
+	}
+}
+
+// c10R7: (a) every transaction type whose arm in applyTxOnState writes the registry makes its block
+// an identity-update block (calculateFlags) — the running cache applies a diff only on flagged
+// blocks; (b) the "lost delegator" collection that switches emptied pools offline uses exactly the
+// complement of the registry's membership predicate (NewbieOrBetter).
+func c10R7(p *engine.Prog, r *engine.Report) {
+	f := mustFunc(p, r, "blockchain", "Blockchain.applyTxOnState")
+	cf := mustFunc(p, r, "blockchain", "Blockchain.calculateFlags")
+	if f != nil && cf != nil {
+		consts := txTypeConsts(p)
+		tgs := txTypeGuards(f, ssa.Value(f.Params[1]))
+		writes := map[int64]string{}
+		for _, c := range engine.Calls(f) {
+			cal := c.Common().StaticCallee()
+			if cal == nil || cal.Signature.Recv() == nil {
+				continue
+			}
+			n := engine.NamedOf(cal.Signature.Recv().Type())
+			if n == nil || n.Obj().Name() != "IdentityStateDB" {
+				continue
+			}
+			switch cal.Name() {
+			case "Remove", "SetOnline", "SetValidated", "SetDelegatee", "RemoveDelegatee", "SetDiscriminated":
+			default:
+				continue
+			}
+			ks, any := armTypes(f, c.Block(), tgs)
+			if any {
+				continue
+			}
+			for _, k := range ks {
+				writes[k] = cal.Name() + " at " + p.InstrPos(c)
+			}
+		}
+		// the tx types calculateFlags tests before raising IdentityUpdate
+		flagged := map[int64]bool{}
+		idUpd := constInt(p, "blockchain/types", "IdentityUpdate")
+		for _, i := range engine.Ifs(cf) {
+			x, y, isEq, ok := eqCond(i.Cond)
+			if !ok || !isEq {
+				continue
+			}
+			for _, pr := range [][2]ssa.Value{{x, y}, {y, x}} {
+				k, isK := engine.ConstInt(pr[1])
+				if _, fld, okF := engine.FieldOf(engine.Origin(pr[0])); !isK || !okF || fld != "Type" {
+					continue
+				}
+				// the true edge reaches an OR with IdentityUpdate without passing another type test that fails
+				for b := range engine.ReachAvoiding(cf, i.Block().Succs[0], nil, nil) {
+					for _, ins := range b.Instrs {
+						if bo, isB := ins.(*ssa.BinOp); isB && bo.Op == token.OR {
+							if kk, isKK := engine.ConstInt(bo.Y); isKK && kk == idUpd {
+								flagged[k] = true
+							}
+						}
+					}
+					break // only the immediate successor chain matters: the flag is set right in the arm
+				}
+				if !flagged[k] {
+					// `a || b || c` chains: the true edge of each test leads to the same arm block
+					seen := map[*ssa.BasicBlock]bool{}
+					blk := i.Block().Succs[0]
+					for d := 0; d < 4 && blk != nil && !seen[blk]; d++ {
+						seen[blk] = true
+						for _, ins := range blk.Instrs {
+							if bo, isB := ins.(*ssa.BinOp); isB && bo.Op == token.OR {
+								if kk, isKK := engine.ConstInt(bo.Y); isKK && kk == idUpd {
+									flagged[k] = true
+								}
+							}
+						}
+						if len(blk.Succs) == 1 {
+							blk = blk.Succs[0]
+						} else {
+							blk = nil
+						}
+					}
+				}
+			}
+		}
+		var ks []int64
+		for k := range writes {
+			ks = append(ks, k)
+		}
+		sort.Slice(ks, func(i, j int) bool { return ks[i] < ks[j] })
+		for _, k := range ks {
+			r.Check(flagged[k], "C10-R7", "calculateFlags|a block with "+consts[k]+" is an identity-update block", p.Pos(cf.Pos()), "its arm writes the registry ("+writes[k]+")", "applyTxOnState writes the validator registry for "+consts[k]+" ("+writes[k]+") but calculateFlags does not raise IdentityUpdate for it: the running cache skips the diff of that block (RefreshIfUpdated) and differs from a cache rebuilt from the stored registry")
+		}
+		r.Floor("C10-R7", 3, "KillTx, KillInviteeTx, KillDelegatorTx")
+	}
+	if ck := mustFunc(p, r, "core/state", "StateDB.CollectKilledDelegators"); ck != nil {
+		n := 0
+		for _, b := range ck.Blocks {
+			for _, ins := range b.Instrs {
+				c, isCall := ins.(*ssa.Call)
+				if !isCall {
+					continue
+				}
+				if bi, isB := c.Call.Value.(*ssa.Builtin); !isB || bi.Name() != "append" {
+					continue
+				}
+				n++
+				var stateConds []string
+				for _, s := range controlSig(b) {
+					if strings.Contains(s, "State(") {
+						stateConds = append(stateConds, s)
+					}
+				}
+				ok := len(stateConds) == 1 && strings.HasPrefix(stateConds[0], "!") && strings.Contains(stateConds[0], "NewbieOrBetter(")
+				r.Check(ok, "C10-R7", "CollectKilledDelegators|a delegator is lost exactly when it is not NewbieOrBetter", p.InstrPos(c), "collected under "+strings.Join(stateConds, " && "), "the delegators counted as lost are selected by {"+strings.Join(stateConds, " && ")+"}, not by the complement of the registry's membership predicate (NewbieOrBetter): a delegator that left the registry without matching it (Suspended, Zombie) still counts as a pool member — an emptied pool stays online")
+			}
+		}
+		if n == 0 {
+			r.Und("C10-R7", "CollectKilledDelegators|collection", p.Pos(ck.Pos()), "no append found")
+		}
 	}
 }
